@@ -3,7 +3,7 @@ HOOKS = {
     "guard": "--cfg nuts_rs_verif (H1), plus --cfg nuts_rs_verif_sched (H2) for the scheduler build",
     "enable": "RUSTFLAGS=\"--cfg nuts_rs_verif\" cargo build --release --offline in engine/seq-harness (path dependency on /repo); done by ./check",
     "baseline_off_cmd": "cd /repo && cargo test --workspace --no-fail-fast --offline",
-    "source_commits": ["2ff3719"],
+    "source_commits": ["2ff3719", "5e3d8a1"],
     "add_only": True,
 }
 NOT_APPLICABLE = {
@@ -14,3 +14,19 @@ claim("C17", "exploration", E1,
       "Bounded-exhaustive enumeration of every vector length 0..=130 x kernel x probe (dense, one-hot at every index, every special value at every index) against a scalar reference; exhaustive over the stated alphabet, not over all floats.",
       "Trusted: the scalar reference formulas in c17.rs; SIMD level = what pulp selects on this CPU; tolerances (n+8)*4 ulp of sum |terms|.",
       "bounded-exhaustive input enumeration (length x index x special value) against scalar reference", "4/C17")
+
+E2_NOTE = ("Trusted: shuttle 0.9.3 engine (with a vendored 3-line patch of shuttle-std's channel Drop, engine/vendor/shuttle-std/PATCH-NOTE.md); "
+           "the facade's FIFO pool shim stands for rayon::scope_fifo (documented semantics), real time is abstracted (timed waits time out at quiescence or immediately for zero); "
+           "sequential consistency at scheduling points (sampler.rs uses only mutexes and channels); 2-d Gaussian model, 3 draws per chain, recording storage backend.")
+claim("C10", "model_checking", E2,
+      "All schedules up to the preemption bound of the real sampler.rs for (chains,cores) in {(1,1),(2,1),(2,2)[,(3,2),(3,3)]} x 4 command scripts x NUTS/MCLMC presets: every chain's recorded rows are bit-identical to a sequential single-chain reference built through Settings::new_chain, and chains differ pairwise.",
+      E2_NOTE, "stateless preemption-bounded DFS over thread schedules of the real controller (shuttle + own scheduler), bit-exact differential oracle against sequential replay", "4/C10")
+claim("C11", "model_checking", E2,
+      "All command scripts over {pause,resume,progress,flush,inspect,wait_timeout(0)} up to length 2 (3 thorough) x {abort, wait_timeout} x 5 chain/core configurations, plus commands after completion; every schedule up to the preemption bound: no deadlock/livelock/panic, every call returns, complete traces or exact prefixes, progress counters and inspect snapshots consistent with the event log.",
+      E2_NOTE, "stateless preemption-bounded DFS over thread schedules x exhaustive command scripts; history predicates on the event log", "4/C11")
+claim("C12", "model_checking", E2,
+      "Pause-window scripts (pause/sleep-until-quiescent/resume, repeated pauses, resume-only, pause with chains > cores) under every schedule up to the bound: draws recorded by a chain after pause() returned are bounded by the control commands queued for it, unstarted chains stay idle, final traces equal the uninterrupted sequential reference.",
+      E2_NOTE, "stateless preemption-bounded DFS over thread schedules; pause-window counting oracle + differential oracle", "4/C12")
+claim("C13", "model_checking", E2,
+      "Fault site (model construction, init_position, all inits failing, unrecoverable/recoverable density error at EVERY evaluation index of a run, storage record/finalize/flush/inspect/init failures) x faulty chain x chains/cores x terminal call x script, every schedule up to the bound: the error surfaces as Err through wait_timeout/abort, never a panic in the caller, hang or success; recoverable errors never end a chain.",
+      E2_NOTE, "fault-site enumeration x stateless preemption-bounded DFS over thread schedules", "4/C13")
